@@ -119,6 +119,25 @@ def matrix_run(eng, n_test, n_trial, path, scenario):
         compare(m4, testsB, trialsA, 'other test list of the same length against the same cache')
         if n_test * n_trial >= 100 and scenario == 'warm' and not fs.saves:
             bad.append('cache enabled but nothing was stored')
+        # real mesh elements (the repository's own Element.__repr__ enters the cache key): two lists of equal length
+        # whose coordinates differ only in the 13th significant digit must not share a cache entry
+        if n_test * n_trial >= 100:
+            M = importlib.import_module('src.mesh')
+            lists = []
+            for x1 in (1.0, 1.0 + 2.0**-40):
+                msh = M.Mesh(glue_space=True, initial_space_mesh=[0, x1, 2.0, 3.0, 4.0],
+                             initial_time_mesh=[0, 0.5, 1.0 + (x1 - 1.0)])
+                msh.uniform_refine_space() if n_test > 8 else None
+                es = list(msh.leaf_elements)[:max(n_test, n_trial)]
+                for e in es:
+                    e.gamma_space = cells[0][2]
+                lists.append(es)
+            if len(lists[0]) >= max(n_test, n_trial):
+                T1, R1 = lists[0][:n_test], lists[0][:n_trial]
+                T2, R2 = lists[1][:n_test], lists[1][:n_trial]
+                compare(op.bilform_matrix(T1, R1, use_mp=use_mp), T1, R1, 'real mesh elements, first list')
+                compare(op.bilform_matrix(T2, R2, use_mp=use_mp), T2, R2,
+                        'real mesh elements differing from the cached list in the 13th digit')
     return bad, len(fs.loads), len(fs.saves)
 
 
@@ -272,6 +291,23 @@ def replay(rp):
                             return True
                         if wrong(op.bilform_matrix(TB, RA, use_mp=use_mp), TB, RA):
                             return True
+                        if n_test * n_trial >= 100:
+                            M = importlib.import_module('src.mesh')
+                            lists = []
+                            for x1 in (1.0, 1.0 + 2.0**-40):
+                                msh = M.Mesh(glue_space=True, initial_space_mesh=[0, x1, 2.0, 3.0, 4.0],
+                                             initial_time_mesh=[0, 0.5, 1.0 + (x1 - 1.0)])
+                                if n_test > 8:
+                                    msh.uniform_refine_space()
+                                es = list(msh.leaf_elements)[:max(n_test, n_trial)]
+                                for e in es:
+                                    e.gamma_space = cells[0][2]
+                                lists.append(es)
+                            if len(lists[0]) >= max(n_test, n_trial):
+                                for es in lists:
+                                    TT, RR = es[:n_test], es[:n_trial]
+                                    if wrong(op.bilform_matrix(TT, RR, use_mp=use_mp), TT, RR):
+                                        return True
                     return False
                 except Exception:
                     return True
